@@ -836,3 +836,240 @@ Proof.
   destruct (xadd_conflict o || negb (fields_ok fields) || is_zero_id spec); [inversion H; auto|].
   rewrite (get_stream_wrong d k v G N) in H. inversion H; auto.
 Qed.
+
+(* ================================================================== property-level statements (C18) *)
+
+Lemma increasing_NoDup l : increasing l -> NoDup l.
+Proof.
+  unfold increasing. induction 1 as [|a r _ IH Fa]; constructor; [|exact IH].
+  intros Hin. rewrite Forall_forall in Fa. apply (sid_ltP_irrefl a). apply Fa. exact Hin.
+Qed.
+
+Lemma stream_at_fun d k x y : stream_at d k x -> stream_at d k y -> x = y.
+Proof. intros [A|[A ->]] [C|[C ->]]; congruence. Qed.
+
+Lemma ttl_db_set d k v : ttl (db_set d k v) = ttl d.
+Proof. reflexivity. Qed.
+
+(* an accepted XADD: the replied id is above every stored id, (id, fields) is appended at the end
+   (then the requested trimming is applied), nothing else moves *)
+Lemma p_xadd_id_greater d nowms args idb d' :
+  streams_ok d -> exec_xadd d nowms args = (RBulk idb, d') ->
+  exists c k pre idt fields o spec x id,
+    args = c :: k :: pre ++ idt :: fields /\ parse_add_id idt = Some spec /\
+    xadd_parse (pre ++ idt :: fields) xopts0 = XOk o spec fields /\
+    stream_at d k x /\ idb = fmt_id id /\ in_u64 id /\
+    sid_ltP (last_id x) id /\ Forall (fun e => sid_ltP (fst e) id) x /\
+    db_get d' k = Some (VStream (trim o (x ++ [(id, fields)]))) /\
+    (forall k0, k0 <> k -> db_get d' k0 = db_get d k0) /\ ttl d' = ttl d.
+Proof.
+  intros OK H.
+  destruct (exec_xadd_inv _ _ _ _ _ H) as [[_ [E|[E|E]]]|(c & k & rest & o & spec & fields & x & id & -> & P & _ & _ & SA & N & R & ->)];
+    try discriminate E.
+  destruct (xadd_parse_inv (List.length rest) rest xopts0 o spec fields (le_n _) P) as (pre & idt & -> & Pi).
+  pose proof (stream_at_ok d k x OK SA) as OKx. pose proof (new_id_gt _ _ _ _ N) as G.
+  exists c, k, pre, idt, fields, o, spec, x, id. inversion R; subst.
+  split; [reflexivity|]. split; [exact Pi|]. split; [exact P|]. split; [exact SA|]. split; [reflexivity|].
+  split; [eapply new_id_range; [eapply parse_add_id_ok; exact Pi|apply last_id_in_u64; exact OKx|exact N]|].
+  split; [exact G|]. split; [apply above_top_above_all; assumption|].
+  split; [apply db_get_set_same|]. split; [|reflexivity].
+  intros k0 Nk. apply db_get_set_other. exact Nk.
+Qed.
+
+(* the plain form, accepted: exactly x ++ [(id, fields)] is stored *)
+Lemma p_xadd_plain_appends d nowms c k idt fields spec x id :
+  streams_ok d -> parse_add_id idt = Some spec -> fields_ok fields = true -> is_zero_id spec = false ->
+  stream_at d k x -> new_id spec nowms (last_id x) = Some id ->
+  exec_xadd d nowms (c :: k :: idt :: fields) =
+    (RBulk (fmt_id id), db_set d k (VStream (x ++ [(id, fields)]))) /\
+  Forall (fun e => sid_ltP (fst e) id) x.
+Proof.
+  intros OK P F Z SA N. rewrite (exec_xadd_plain d nowms c k idt fields spec x P F Z SA), N.
+  split; [reflexivity|]. apply above_top_above_all; [eapply stream_at_ok; eassumption|eapply new_id_gt; exact N].
+Qed.
+
+(* a reply that is not an id means nothing changed -- not even a key was created *)
+Lemma p_rejected_changes_nothing d nowms args r d' :
+  exec_xadd d nowms args = (r, d') -> (forall b, r <> RBulk b) -> d' = d.
+Proof.
+  intros H N.
+  destruct (exec_xadd_inv _ _ _ _ _ H) as [[-> _]|(c & k & rest & o & spec & fields & x & id & _ & _ & _ & _ & _ & _ & R & _)];
+    [reflexivity|]. exfalso. eapply N. exact R.
+Qed.
+
+(* an explicit id that is not greater than the top item is refused *)
+Lemma p_explicit_not_greater_rejected d nowms c k idt fields i x :
+  parse_add_id idt = Some (IdFull i) -> stream_at d k x -> sid_leP i (last_id x) ->
+  exec_xadd d nowms (c :: k :: idt :: fields) = (err_other, d).
+Proof.
+  intros P SA L. unfold exec_xadd.
+  destruct (zlength (c :: k :: idt :: fields) <? 5); [reflexivity|].
+  rewrite (xadd_parse_plain idt fields _ xopts0 P).
+  destruct (xadd_conflict xopts0 || negb (fields_ok fields) || is_zero_id (IdFull i)); [reflexivity|].
+  unfold xadd_apply. destruct SA as [G|[G ->]].
+  - apply get_stream_found in G. rewrite G. rewrite (new_id_full_refused nowms (last_id x) i L). reflexivity.
+  - apply get_stream_missing in G. rewrite G. cbn [x_nomk xopts0].
+    rewrite (new_id_full_refused nowms (last_id []) i L). reflexivity.
+Qed.
+
+(* XADD key * ...: whatever the clock says -- standing still, behind the top item -- the id is
+   above every stored id; it can only fail on a stream whose top item is the greatest id *)
+Lemma p_auto_id_exceeds_last d nowms c k fields x :
+  streams_ok d -> stream_at d k x -> fields_ok fields = true -> last_id x <> (u64max, u64max) ->
+  exists id, sid_ltP (last_id x) id /\ Forall (fun e => sid_ltP (fst e) id) x /\
+    exec_xadd d nowms (c :: k :: B "*" :: fields) =
+      (RBulk (fmt_id id), db_set d k (VStream (x ++ [(id, fields)]))).
+Proof.
+  intros OK SA F N. pose proof (stream_at_ok d k x OK SA) as OKx.
+  destruct (new_id_auto_total nowms (last_id x) (last_id_in_u64 x OKx) N) as [id Hid].
+  exists id. pose proof (new_id_gt _ _ _ _ Hid) as G.
+  split; [exact G|]. split; [apply above_top_above_all; assumption|].
+  pose proof (exec_xadd_plain d nowms c k (B "*") fields IdAuto x eq_refl F eq_refl SA) as Q.
+  rewrite Hid in Q. exact Q.
+Qed.
+
+(* XRANGE: exactly the stored entries with lo <= id <= hi, in stream order, each under its id with
+   its fields, cut to the first COUNT *)
+Lemma p_xrange_exact d c k s e opts x lo hi cnt :
+  streams_ok d -> db_get d k = Some (VStream x) ->
+  parse_bound s 0 = Some lo -> parse_bound e u64max = Some hi -> parse_count opts None = Some cnt ->
+  exec_xrange d (c :: k :: s :: e :: opts) =
+  (match cnt with
+   | None => RArr (map entry_reply (filter (in_range lo hi) x))
+   | Some n => if n =? 0 then RNilArr
+               else RArr (map entry_reply (firstn (Z.to_nat n) (filter (in_range lo hi) x)))
+   end, d).
+Proof.
+  intros OK G. apply exec_xrange_exact; [exact G|]. exact (proj1 (OK k _ G)).
+Qed.
+
+Lemma p_xrange_all d c k x :
+  streams_ok d -> db_get d k = Some (VStream x) ->
+  exec_xrange d [c; k; B "-"; B "+"] = (RArr (map entry_reply x), d).
+Proof.
+  intros OK G.
+  pose proof (p_xrange_exact d c k (B "-") (B "+") [] x (0, 0) (u64max, u64max) None OK G eq_refl eq_refl eq_refl) as Q.
+  rewrite in_range_all in Q; [exact Q|]. exact (proj2 (OK k _ G)).
+Qed.
+
+Lemma parse_count_one cw nb v :
+  is (lower cw) (B "count") = true -> atoi64 nb = Some v ->
+  parse_count [cw; nb] None = Some (Some (if v <? 0 then 0 else v)).
+Proof. intros C A. cbn. rewrite C, A. reflexivity. Qed.
+
+(* what was added is what is read back, under the id that XADD reported *)
+Lemma p_xadd_then_xrange d nowms c k idt fields spec x idb d' c2 :
+  streams_ok d -> parse_add_id idt = Some spec -> stream_at d k x ->
+  exec_xadd d nowms (c :: k :: idt :: fields) = (RBulk idb, d') ->
+  exec_xrange d' [c2; k; B "-"; B "+"] =
+    (RArr (map entry_reply x ++ [RArr [RBulk idb; RArr (map RBulk fields)]]), d').
+Proof.
+  intros OK P SA H.
+  pose proof (exec_xadd_streams_ok _ _ _ _ _ OK H) as OK'.
+  destruct (exec_xadd_inv _ _ _ _ _ H) as [[_ [E|[E|E]]]|(c' & k' & rest & o & spec' & fields' & x' & id & Ea & Pp & _ & _ & SA' & N & R & D)];
+    try discriminate E.
+  inversion Ea; subst c' k' rest. rewrite (xadd_parse_plain idt fields spec xopts0 P) in Pp.
+  inversion Pp; subst o spec' fields'. rewrite (stream_at_fun d k x' x SA' SA) in *.
+  inversion R; subst idb. cbn in D.
+  assert (G : db_get d' k = Some (VStream (x ++ [(id, fields)]))) by (rewrite D; apply db_get_set_same).
+  pose proof (p_xrange_all d' c2 k _ OK' G) as Q. rewrite map_app in Q. exact Q.
+Qed.
+
+(* ---- trimming through the command ---- *)
+Lemma is_mod_not_int t v : atoi64 t = Some v -> is_mod t = false.
+Proof.
+  intros A. unfold is_mod, is.
+  destruct (bytes_eqb_spec t (B "~")) as [->|_]; [discriminate A|].
+  destruct (bytes_eqb_spec t (B "=")) as [->|_]; [discriminate A|]. reflexivity.
+Qed.
+Lemma is_mod_not_id t m i : parse_id t m = Some i -> is_mod t = false.
+Proof.
+  intros A. unfold is_mod, is.
+  destruct (bytes_eqb_spec t (B "~")) as [->|_]; [discriminate A|].
+  destruct (bytes_eqb_spec t (B "=")) as [->|_]; [discriminate A|]. reflexivity.
+Qed.
+
+Lemma is_lower_eq a kw : is (lower a) kw = true -> lower a = kw.
+Proof. unfold is. apply bytes_eqb_eq. Qed.
+
+Lemma xadd_parse_maxlen kw nb idt fields n spec :
+  is (lower kw) (B "maxlen") = true -> atoi64 nb = Some n -> 0 <= n -> parse_add_id idt = Some spec ->
+  xadd_parse (kw :: nb :: idt :: fields) xopts0 = XOk (mkX false (Some n) None false None) spec fields.
+Proof.
+  intros K A Hn P. cbn [xadd_parse]. rewrite (is_lower_eq _ _ K). cbn [is bytes_eqb beqb Byte.eqb andb].
+  change (is (B "maxlen") (B "nomkstream")) with false. change (is (B "maxlen") (B "maxlen")) with true.
+  cbn iota. rewrite (is_mod_not_int nb n A), A.
+  replace (n <? 0) with false by (symmetry; apply Z.ltb_ge; exact Hn).
+  apply xadd_parse_plain. exact P.
+Qed.
+
+Lemma xadd_parse_minid kw tb idt fields th spec :
+  is (lower kw) (B "minid") = true -> parse_id tb 0 = Some th -> parse_add_id idt = Some spec ->
+  xadd_parse (kw :: tb :: idt :: fields) xopts0 = XOk (mkX false None (Some th) false None) spec fields.
+Proof.
+  intros K A P. cbn [xadd_parse]. rewrite (is_lower_eq _ _ K).
+  change (is (B "minid") (B "nomkstream")) with false. change (is (B "minid") (B "maxlen")) with false.
+  change (is (B "minid") (B "minid")) with true.
+  cbn iota. rewrite (is_mod_not_id tb 0 th A), A.
+  apply xadd_parse_plain. exact P.
+Qed.
+
+Lemma exec_xadd_opts d nowms c k rest o spec fields x id :
+  5 <= zlength (c :: k :: rest) ->
+  xadd_parse rest xopts0 = XOk o spec fields -> xadd_conflict o = false -> x_nomk o = false ->
+  fields_ok fields = true -> is_zero_id spec = false ->
+  stream_at d k x -> new_id spec nowms (last_id x) = Some id ->
+  exec_xadd d nowms (c :: k :: rest) =
+    (RBulk (fmt_id id), db_set d k (VStream (trim o (x ++ [(id, fields)])))).
+Proof.
+  intros L P C NM F Z SA N. unfold exec_xadd.
+  replace (zlength (c :: k :: rest) <? 5) with false by (symmetry; apply Z.ltb_ge; exact L).
+  rewrite P, C, F, Z. cbn [negb orb]. unfold xadd_apply. destruct SA as [G|[G ->]].
+  - apply get_stream_found in G. rewrite G, N. reflexivity.
+  - apply get_stream_missing in G. rewrite G, NM, N. reflexivity.
+Qed.
+
+(* XADD key MAXLEN n id f v ...: the stored stream is the newest min(len+1, n) entries of the old
+   entries followed by the new one *)
+Lemma p_xadd_maxlen d nowms c k kw nb idt fields n spec x id :
+  is (lower kw) (B "maxlen") = true -> atoi64 nb = Some n -> 0 <= n ->
+  parse_add_id idt = Some spec -> fields_ok fields = true -> is_zero_id spec = false ->
+  stream_at d k x -> new_id spec nowms (last_id x) = Some id ->
+  let y := x ++ [(id, fields)] in
+  let y' := skipn (Z.to_nat (zlength y - n)) y in
+  exec_xadd d nowms (c :: k :: kw :: nb :: idt :: fields) = (RBulk (fmt_id id), db_set d k (VStream y'))
+  /\ zlength y' = Z.min (zlength y) n.
+Proof.
+  intros K A Hn P F Z SA N y y'.
+  pose proof (xadd_parse_maxlen kw nb idt fields n spec K A Hn P) as PP.
+  destruct (trim_maxlen_exact (mkX false (Some n) None false None) y n eq_refl eq_refl eq_refl Hn) as [T1 T2].
+  assert (L : 5 <= zlength (c :: k :: kw :: nb :: idt :: fields)).
+  { unfold fields_ok in F. apply andb_true_iff in F as [F _]. apply Z.leb_le in F.
+    rewrite !zlength_cons. pose proof (zlength_nonneg fields). lia. }
+  pose proof (exec_xadd_opts d nowms c k _ _ spec fields x id L PP eq_refl eq_refl F Z SA N) as Q.
+  fold y in Q. rewrite T1 in Q. split; [exact Q|].
+  subst y'. rewrite <- T1. exact T2.
+Qed.
+
+(* XADD key MINID th id f v ...: exactly the entries with id >= th remain *)
+Lemma p_xadd_minid d nowms c k kw tb idt fields th spec x id :
+  streams_ok d ->
+  is (lower kw) (B "minid") = true -> parse_id tb 0 = Some th ->
+  parse_add_id idt = Some spec -> fields_ok fields = true -> is_zero_id spec = false ->
+  stream_at d k x -> new_id spec nowms (last_id x) = Some id ->
+  exec_xadd d nowms (c :: k :: kw :: tb :: idt :: fields) =
+    (RBulk (fmt_id id),
+     db_set d k (VStream (filter (fun e => sid_le th (fst e)) (x ++ [(id, fields)])))).
+Proof.
+  intros OK K A P F Z SA N.
+  pose proof (xadd_parse_minid kw tb idt fields th spec K A P) as PP.
+  pose proof (stream_at_ok d k x OK SA) as OKx.
+  assert (OKy : stream_ok (x ++ [(id, fields)])).
+  { apply stream_ok_append; [exact OKx| |eapply new_id_gt; exact N].
+    eapply new_id_range; [eapply parse_add_id_ok; exact P|apply last_id_in_u64; exact OKx|exact N]. }
+  assert (L : 5 <= zlength (c :: k :: kw :: tb :: idt :: fields)).
+  { unfold fields_ok in F. apply andb_true_iff in F as [F _]. apply Z.leb_le in F.
+    rewrite !zlength_cons. pose proof (zlength_nonneg fields). lia. }
+  pose proof (exec_xadd_opts d nowms c k _ _ spec fields x id L PP eq_refl eq_refl F Z SA N) as Q.
+  rewrite (trim_minid_exact (mkX false None (Some th) false None) _ th eq_refl eq_refl eq_refl (proj1 OKy)) in Q. exact Q.
+Qed.
